@@ -53,6 +53,32 @@ def run(ctx):
     replayed += summs["lines"]
     states += rs.distinct
     transitions += rs.generated
+    # the subsidy schedule itself: every halving boundary up to the 64th, model (Amt!Subsidy) against btc.GetBlockReward
+    rg = ctx.tlc("SubsidyGen", "Subsidy_gen", workers=1, timeout=600)
+    rg.require_ok("SubsidyGen")
+    subl = os.path.join(ctx.scratch, "subsidy.lines")
+    with open(subl, "w") as fh:
+        nsub = 0
+        for l in rg.lines("VFT"):
+            fh.write(l + "\n")
+            nsub += 1
+    if nsub < 200:
+        raise Infra("SubsidyGen exported only %d heights" % nsub)
+    ps = ctx.run([binp, "subsidy", subl], timeout=300)
+    if ps.returncode != 0:
+        raise Infra("ledger subsidy failed: " + ps.stderr[-1000:])
+    sub_sum = None
+    for ln in ps.stdout.splitlines():
+        j = json.loads(ln)
+        if j.get("summary"):
+            sub_sum = j
+        else:
+            ctx.violation("C04:subsidy:h%d" % j["height"], {"stage": "subsidy", "line": j},
+                          "GetBlockReward(%d) = %d satoshi, the schedule gives %d" % (j["height"], j["got"], j["want"]))
+    if not sub_sum or sub_sum["lines"] != nsub or sub_sum["distinct"] < 30:
+        raise Infra("ledger subsidy: bad summary %r" % sub_sum)
+    ctx.log("subsidy schedule: %d boundary heights compared (%d distinct values)" % (nsub, sub_sum["distinct"]))
+    replayed += nsub
     if not quick:
         ex3, lines3, scen3, n3 = L.export(ctx, "Rules", 5, "rules-sim", emitat=5, simulate="num=3000", depth=5)
         summ3, fails3 = L.replay(ctx, binp, scen3, lines3, "rules-sim")
@@ -77,7 +103,7 @@ def run(ctx):
                     "exhaustive": True, "families": ["Rules", "Wrap", "Sigops"], "depth": depth,
                     "rule": "all delivery sequences of length <= depth over the 31-block Rules universe (one valid block and per rule a block violating only that rule, two levels); every transition replayed on lib/chain with plain and compressed UTXO records"})
     ctx.assumptions += ["valid spends are built with gocoin's own ECDSA signer / anyone-can-spend scripts; script semantics are C01-C03",
-                        "all blocks at minimum difficulty; subsidy eras beyond the first are not reached on-chain"]
+                        "all blocks at minimum difficulty; subsidy eras beyond the first are not reached on-chain (the schedule function itself is compared with the model at every halving boundary)"]
 
 
 def replay_cmd(ctx, path):
